@@ -59,6 +59,9 @@ class Contract:
         self.loop_types: dict = g('loop_types', {})   # loop index -> {assigned variable: type string}
         self.aliases: dict = g('aliases', {})         # 'a.b': 'c.d'  -- input field a.b IS the object c.d
         self.may_raise: list = g('may_raise', [])   # exceptions the function may raise under no stated condition
+        # binds = {'result._ctx': 'self'}: at modular call sites the named field of the fresh result *is* the named
+        # input object (object identity cannot be assumed as a formula); verified as obligation #post[bind:<path>]
+        self.binds: dict = g('binds', {})
         self.pre = ci.methods.get('pre')
         self.post = ci.methods.get('post')
         self.raises = ci.methods.get('raises')
@@ -372,6 +375,11 @@ class Explorer:
             else:
                 rt = self.types.parse_str(c.returns, info.module.name, info.cls)
                 result = P.fresh(rt, P.fresh_name(short))
+        for path, src in c.binds.items():
+            base, _, fld = path.rpartition('.')
+            env = dict(bound, result=result)
+            tgt = self._resolve_path(P, env, base)
+            P.write(tgt.fields, fld, self._resolve_path(P, env, src))
         if c.post is not None:
             extra = {'result': result}
             if needs_old:
@@ -657,6 +665,10 @@ class Explorer:
                         # proof steps: a clause, once stated as an obligation, is a fact for the *later* clauses
                         # (sound by induction over the clause order; an open step leaves the contract open)
                         P.assume(cond, fact=True)
+            for path, src in c.binds.items():
+                env = dict(bound, result=result)
+                P.oblige(f'{short}#post[bind:{path}]', 'post',
+                         P.truthy(P.identical(self._resolve_path(P, env, path), self._resolve_path(P, env, src))))
             for callee, cnt in c.opts.get('call_counts', {}).items():
                 P.oblige(f'{short}#calls[{callee}=={cnt}]', 'calls', P.modular_calls.get(callee, 0) == cnt)
             # frame: inputs unchanged unless listed in modifies
@@ -760,8 +772,21 @@ class Explorer:
                     formulas = [f for f in sub[0]] or [z3.BoolVal(True)]
             except z3.Z3Exception:
                 pass
-        light = self.current is not None and self.current.opts.get('light_axioms', False)
-        ax, _ = theory.instantiate(formulas, heavy=not light, quant=self.quant)     # option light_axioms: no product-splitting instances
+        # option noax_first_ms: first try without any pow2/bl axiom instance (sound: fewer assumptions); many
+        # obligations of callers of contracts follow by congruence alone and the axioms only slow them down
+        nf = self.current.opts.get('noax_first_ms') if self.current is not None else None
+        if nf and not skip_first:
+            s0 = z3.Solver()
+            s0.set('timeout', nf)
+            s0.set('arith.nl', False)      # products stay opaque terms: incomplete (unknown), never wrong about unsat
+            for f in formulas:
+                s0.add(f)
+            if s0.check() == z3.unsat:
+                self.stats['queries'] += 1
+                return 'unsat', time.time() - t0, 'z3-noax', None
+        light = self.current is not None and (self.current.opts.get('light_axioms', False) or self.current.opts.get('light_theory', False))
+        # options light_axioms / light_theory: no product-splitting instances (PP.split / S6q)
+        ax, _ = theory.instantiate(formulas, heavy=not light, quant=self.quant)
         s = z3.Solver()
         s.set('timeout', timeout_ms or self.timeout_ms)
         for f in formulas:
